@@ -343,7 +343,7 @@ def r2_3(repo: Repo) -> RuleResult:
 # reviewed exceptions: (class, method) -> reason; re-validated on every run
 _IDENTITY_EXCEPTIONS = {
     ("RowDenoisingTransformer", "fit_transform"): (
-        "guarded by `X.nnz == 0`: on an all-zero matrix fit() leaves the estimator unfitted "
+        "guarded by an emptiness test of X (`X.nnz == 0` / `X.count_nonzero() == 0`): on an all-zero matrix fit() leaves the estimator unfitted "
         "(warns 'Cannot fit an empty matrix'), so fit(X).transform(X) is undefined there; not valid training input"
     ),
 }
@@ -391,7 +391,7 @@ def r2_4(repo: Repo) -> RuleResult:
             for r in rets:
                 nid = g.node_for(r)
                 guards = [g.nodes[t].ast for t, lab in g.guards_of(nid) if lab == "true"]
-                if not any("nnz == 0" in norm(x) for x in guards):
+                if not any(("nnz == 0" in norm(x)) or ("count_nonzero() == 0" in norm(x)) for x in guards):
                     okay = False
             if okay:
                 rr.add(f.file, c.name + "." + which, "identity return", "exception", exc, rets[0].lineno)
@@ -404,7 +404,57 @@ def r2_4(repo: Repo) -> RuleResult:
     return rr
 
 
-RULES = [r2_1, r2_2, r2_3, r2_4]
+# --------------------------------------------------------------------------- R2.5
+def _extend_shape(arg: ast.AST):
+    """('per-element', source, n_generators) for tuple([... for x in S]) / [... for x in S];
+    ('whole', source) for f(S[a:b]) applied to the slice as one object."""
+    e = arg
+    while isinstance(e, ast.Call) and isinstance(e.func, ast.Name) and e.func.id in ("tuple", "list") and len(e.args) == 1:
+        e = e.args[0]
+    if isinstance(e, (ast.ListComp, ast.GeneratorExp)):
+        return ("per-element", norm(e.generators[0].iter))
+    subs = [n for n in ast.walk(e) if isinstance(n, ast.Subscript) and isinstance(n.slice, ast.Slice)]
+    if subs:
+        return ("whole", norm(subs[0]))
+    return ("other", norm(e))
+
+
+def r2_5(repo: Repo) -> RuleResult:
+    rr = RuleResult("R2.5", "sibling branches that fill the same accumulator consume their source the same way (element-wise vs whole slice)", floor=1)
+    for c in exported_estimators(repo):
+        for entry in ("fit", "transform"):
+            f = repo.resolve_method(c, entry)
+            if f is None or f.cls is not c:
+                continue
+            for n in walk_no_nested(f.node):
+                if not (isinstance(n, ast.If) and n.orelse):
+                    continue
+                def extends(stmts):
+                    out = {}
+                    for s in stmts:
+                        for x in ast.walk(s):
+                            if isinstance(x, ast.Call) and isinstance(x.func, ast.Attribute) and x.func.attr == "extend" \
+                                    and isinstance(x.func.value, ast.Name) and x.args:
+                                out.setdefault(x.func.value.id, []).append(x)
+                    return out
+                a, b = extends(n.body), extends(n.orelse)
+                for acc in sorted(set(a) & set(b)):
+                    if len(a[acc]) != 1 or len(b[acc]) != 1:
+                        continue
+                    sa, sb = _extend_shape(a[acc][0].args[0]), _extend_shape(b[acc][0].args[0])
+                    construct = "%s.extend(...) in both arms of `if %s`" % (acc, short(n.test, 30))
+                    if sa[0] == sb[0]:
+                        rr.ok(f, construct, "both arms are %s over `%s`" % (sa[0], sa[1]), n.lineno)
+                    else:
+                        rr.bad(f, construct,
+                               "one arm fills `%s` element by element (`%s`), the other converts the whole slice at once (`%s`): for a list of "
+                               "arrays of different sizes the whole-slice conversion cannot build one array and raises, so the two "
+                               "configurations accept different inputs" % (acc, sa[1] if sa[0] == "per-element" else sb[1], sb[1] if sb[0] == "whole" else sa[1]),
+                               b[acc][0].lineno)
+    return rr
+
+
+RULES = [r2_1, r2_2, r2_3, r2_4, r2_5]
 
 CLAIM = (
     "R2.1 every normal exit of every estimator's fit is `return self` (CFG); R2.2 fit/fit_transform are one pipeline "
@@ -412,7 +462,7 @@ CLAIM = (
     "arguments and attribute write sets); R2.3 every repository function called from both the fit path and the "
     "transform path of a class gets the same configuration arguments (presence and closed-form equality of bound "
     "arguments, fitted state may replace configuration); R2.4 fit_transform may return its input unchanged only "
-    "where transform can as well."
+    "where transform can as well; R2.5 sibling branches filling the same accumulator consume their source the same way."
 )
 NOT_DECIDED = (
     "numerical equality of SVD outputs (u*s vs X @ V^T) and that BPE's incremental training merges equal the "
